@@ -208,6 +208,10 @@ func run(r *vk.Run) {
 		"mode.UpdateModeValues", "fanspeed.UpdateFanSpeed", "cancel"} {
 		r.Require("calls/"+m, perFam*3)
 	}
+	for _, m := range []string{"wrap.ClientStream(linger,cancel)", "wrap.ClientStream(linger,deadline)", "wrap.UnaryAsStream",
+		"wrap.Unary(concurrent-cancel)", "wrap.Unary(deadline)"} {
+		r.Require("calls/"+m, perFam/2)
+	}
 	for _, m := range []string{"Value.Pull", "Collection.Pull", "Collection.PullID"} {
 		for _, combo := range []string{"", "uo", "bp", "uo,bp", "rmask", "rmask,uo", "rmask,bp", "rmask,uo,bp"} {
 			r.Require("options/"+m+"["+combo+"]", perFam/4)
